@@ -42,12 +42,17 @@ def env():
     return e
 
 
+UNBLOCK_MODULES = ("h_c17",)      # harnesses whose code under test does file I/O in scratch directories
+
+
 def run_crosshair(file: Path, line: int, timeout_s: int, per_path: float = None, extra=()):
     cmd = CROSSHAIR + ["check", "--report_all", f"--per_condition_timeout={timeout_s}"]
     if per_path:
         cmd.append(f"--per_path_timeout={per_path}")
     cmd += list(extra)
     cmd.append(f"{file}:{line}")
+    if any(file.name.startswith(m) for m in UNBLOCK_MODULES):
+        cmd += ["--unblock", "EVERYTHING"]
     t0 = time.time()
     try:
         r = subprocess.run(cmd, capture_output=True, text=True, timeout=timeout_s * 2 + 90, env=env(), cwd=str(HARNESS))
